@@ -160,7 +160,8 @@ def run_once(s, r, sn, groups, prefix, extra_env=None, on_group_complete=None):
         env = s.env(c.env())
         if extra_env:
             env.update(extra_env)
-        p = c.spawn("run", [common.MONORAIL, "run"] + sn.args, r.dir, env)
+        argv_, cwd_ = r.cmdline("run", *sn.args)
+        p = c.spawn("run", argv_, cwd_, env)
         cmd_index = {cmd: i for i, cmd in enumerate(sn.commands)}
         by_child = {}
 
